@@ -1,6 +1,6 @@
 Require Import ExtrOcamlBasic.
-Require Import GV.Model.Units_io.
-Definition vp_run := units_run.
-Definition vp_check := c11_check.
-Definition vp_nontriv := units_nontriv.
+Require Import GV.Model.C11_io.
+Definition vp_run := c11_run.
+Definition vp_check := c11_check_all.
+Definition vp_nontriv := c11_nontriv_all.
 Extraction "model.ml" vp_run vp_check vp_nontriv.
